@@ -1474,6 +1474,16 @@ class Engine:
             for (s2, rv) in outs:
                 if s2.status == "run":
                     f2 = s2.frames[-1]
+                    pend = s2.user.pop("pending_call", None)
+                    if pend is not None:
+                        # the stub asks for a function of the module to run first; this call instruction is executed again afterwards
+                        hf = self.m.funcs[pend[0]]
+                        nf = Frame(hf, None)
+                        for (t, pn), a in zip(hf.params, pend[1]):
+                            nf.regs[pn] = a
+                        s2.frames.append(nf)
+                        results.append(s2)
+                        continue
                     if s2.user.get("throwing"):
                         s2.user["throwing"] = False
                         # exception raised by stub: unwind from this frame
